@@ -137,7 +137,7 @@ package backend
 
 // ---- C03: the limited list, end to end ----
 //@ func (*backend).List(ctx, r) (resp, err)
-//@   props C03 C20
+//@   props C02 C03 C20
 //@   requires wf_backend(b) && b.scanner != nil && r != nil && !batch_open
 //@   requires [limit-fits] r.Limit < 0x1000000000000
 //@   modifies inferred:(*backend).List ghost.bw_n ghost.bw_kind ghost.bw_key ghost.bw_val ghost.bw_old ghost.bw_ttl ghost.commits ghost.last_batch ghost.last_err ghost.batch_open ghost.floor ghost.floor_set
@@ -146,6 +146,8 @@ package backend
 //@   ensures [header] err == nil ==> resp != nil && resp.Header != nil
 //@   ensures [the-interval-asked-for] err == nil && r.Limit > 0 ==> is_enc(it_lo, r.Key, uint64(0)) && is_enc(it_hi, r.End, uint64(0))
 //@   ensures [more-exactly-when-the-limit-cut-the-result] err == nil && r.Limit > 0 ==> resp.More == (cnt(rec_n) > r.Limit) && len(resp.Kvs) == ite(cnt(rec_n) > r.Limit, r.Limit, cnt(rec_n))
+// C02: the header is never below the data, provided the read revision is not above the committed one
+//@   ensures@C02 [header-not-below-the-data] err == nil && r.Limit > 0 && R <= resp.Header.Revision ==> forall(i, 0 <= i && i < rec_n && emitted_at(i, R) && 0 <= cnt(i) && cnt(i) < len(resp.Kvs), resp.Kvs[cnt(i)].Revision <= resp.Header.Revision)
 //@   ensures [limited-list-is-a-prefix-of-the-snapshot] err == nil && r.Limit > 0 ==> forall(i, 0 <= i && i < rec_n && emitted_at(i, R) && 0 <= cnt(i) && cnt(i) < len(resp.Kvs), resp.Kvs[cnt(i)] != nil && same_slice(resp.Kvs[cnt(i)].Key, uk_of(i)) && resp.Kvs[cnt(i)].Value == rec_val[i] && resp.Kvs[cnt(i)].Revision == rec_rev[i])
 
 //@ func (*backend).create(ctx, key, value) (revision, err)
@@ -450,8 +452,16 @@ package backend
 //@   requires [a-new-request] !registered
 //@   modifies *
 
+// C09: a write whose outcome is unknown is handed to the repair queue before its revision is
+// committed -- Compact clamps below the least queued revision, so it must be queued first
+//@ func (*backend).SetCurrentRevision(revision)
+//@   props C09
+//@   requires b != nil && b.tso != nil
+//@   requires@C09 [unresolved-writes-are-queued-before-their-revision-is-committed] seq_src == nil || asref(seq_src, "*common.WatchEvent").Revision != revision || asref(seq_src, "*common.WatchEvent").Valid || !err_is(asref(seq_src, "*common.WatchEvent").Err, storage.ErrUncertainResult) || appended == seq_src
+//@   modifies inferred:(*backend).SetCurrentRevision
+
 //@ func (*backend).collectStorageWriteEvents()
-//@   props C06
+//@   props C06 C09
 //@   nosafety
 //@   requires wf_backend(b) && b.watchCache != nil && b.asyncFifoRetry != nil
 //@   modifies *
